@@ -65,7 +65,7 @@ func (c *CrashCase) Judge(rs []Res, env *Env) Outcome {
 	o := Outcome{Cell: c.Family}
 	if r.TimedOut {
 		o.Status = Violated
-		o.Viols = []Violation{{Sig: "C13|hang|" + c.Family, Detail: fmt.Sprintf("the worker used more than %s of CPU time on one input of %d bytes (family %s): %s", env.Pool.cpuLimit, len(c.Src), c.Family, clipStr(printable(c.Src), 300))}}
+		o.Viols = []Violation{{Sig: "C13|hang|" + c.Family, Detail: fmt.Sprintf("the worker used more than %s of CPU time on one input of %d bytes (family %s): %s", env.Pool.limitFor(len(c.Src)), len(c.Src), c.Family, clipStr(printable(c.Src), 300))}}
 		return o
 	}
 	if r.Crashed() {
@@ -152,6 +152,26 @@ func familySource(f string, n int) []byte {
 		}
 	case "long-global-list":
 		b.WriteString("\tGLOBAL _a" + rep(", _b", n) + "\n")
+	case "many-labels-referenced":
+		for i := 0; i < n; i++ {
+			fmt.Fprintf(&b, "l%d:\n\tDW l%d\n", i, (i*7)%n)
+		}
+	case "many-jumps":
+		for i := 0; i < n; i++ {
+			fmt.Fprintf(&b, "j%d:\n\tJMP j%d\n", i, (i*7)%n)
+		}
+	case "many-equ-uses":
+		for i := 0; i < n; i++ {
+			fmt.Fprintf(&b, "E%d\tEQU\t%d\n\tDB E%d\n", i, i%200, i)
+		}
+	case "many-globals":
+		b.WriteString("[FORMAT \"WCOFF\"]\n[BITS 32]\n")
+		for i := 0; i < n; i++ {
+			fmt.Fprintf(&b, "\tGLOBAL _g%d\n", i)
+		}
+		for i := 0; i < n; i++ {
+			fmt.Fprintf(&b, "_g%d:\n\tNOP\n", i)
+		}
 	case "blank-lines":
 		b.WriteString("\tNOP\n" + rep("\n", n) + "\tNOP\n")
 	case "whitespace-run":
@@ -212,6 +232,67 @@ func (c *StepCase) Judge(rs []Res, env *Env) Outcome {
 }
 
 func init() { registerKind("steps", func() Case { return &StepCase{} }) }
+
+// ScaleCase: CPU time of the whole pipeline for one size family at doubling
+// sizes, all in the same worker process one after the other (so that whatever
+// load the machine carries affects the sizes alike).  Only the RATIO between
+// successive sizes is judged, and only when the times are large enough to mean
+// something: cubic or worse growth on two successive doublings is a violation.
+type ScaleCase struct {
+	Family string `json:"family"`
+	Sizes  []int  `json:"sizes"`
+}
+
+func (c *ScaleCase) Kind() string { return "scale" }
+func (c *ScaleCase) Reqs() []Req {
+	var rq []Req
+	for _, n := range c.Sizes {
+		rq = append(rq, Req{Src: familySource(c.Family, n)})
+	}
+	return rq
+}
+func (c *ScaleCase) Judge(rs []Res, env *Env) Outcome {
+	o := Outcome{Cell: "cpu-scale " + c.Family}
+	var cpu []float64
+	for i, r := range rs {
+		if r.TimedOut || r.Crashed() || r.Died {
+			sig, msg := crashSignature(&r)
+			kind := "crash"
+			if r.TimedOut {
+				kind, sig = "hang", c.Family
+			}
+			o.Status = Violated
+			o.Viols = []Violation{{Sig: "C13|" + kind + "|" + sig, Detail: fmt.Sprintf("family %s at n=%d: %s", c.Family, c.Sizes[i], msg)}}
+			return o
+		}
+		cpu = append(cpu, float64(r.CPUus)/1e6)
+	}
+	bad := 0
+	var ratios []string
+	for i := 1; i < len(cpu); i++ {
+		if cpu[i-1] < 0.05 {
+			ratios = append(ratios, "-")
+			continue // too small to mean anything
+		}
+		ratio := cpu[i] / cpu[i-1]
+		ratios = append(ratios, fmt.Sprintf("%.2f", ratio))
+		if ratio >= 7 && cpu[i] >= 2 {
+			bad++
+		} else {
+			bad = 0
+		}
+		if bad >= 2 {
+			o.Status = Violated
+			o.Viols = []Violation{{Sig: "C13|superquadratic-time|" + c.Family, Detail: fmt.Sprintf("CPU seconds of the whole pipeline for family %s at sizes %v: %.2f (ratios %v): close to cubic or worse on two successive doublings", c.Family, c.Sizes, cpu, ratios)}}
+			return o
+		}
+	}
+	o.Note = fmt.Sprintf("cpu %.2f ratios %v", cpu, ratios)
+	o.Status = Held
+	return o
+}
+
+func init() { registerKind("scale", func() Case { return &ScaleCase{} }) }
 
 // ---- workload ---------------------------------------------------------------------
 
@@ -430,6 +511,14 @@ func init() {
 		for _, f := range []string{"long-operand-list", "long-sum", "long-program", "many-labels", "many-comments", "long-string", "many-equs", "blank-lines"} {
 			cases = append(cases, &CrashCase{Src: familySource(f, big), Family: "large-" + f})
 		}
+		// CPU time of the whole pipeline at doubling sizes
+		scale := []int{500, 1000, 2000, 4000}
+		if env.Tier == "thorough" {
+			scale = []int{500, 1000, 2000, 4000, 8000, 16000}
+		}
+		for _, f := range []string{"long-program", "many-labels", "many-labels-referenced", "many-jumps", "many-equs", "many-equ-uses", "many-globals", "long-operand-list", "long-sum", "long-string", "many-comments"} {
+			cases = append(cases, &ScaleCase{Family: f, Sizes: scale})
+		}
 		// EQU chains whose stored expressions double at every level (symbolic term that is never combined)
 		for _, depth := range []int{8, 16, 32} {
 			var b strings.Builder
@@ -443,7 +532,7 @@ func init() {
 		// the known deep-nesting crash, under its own signature
 		cases = append(cases, &CrashCase{Src: familySource("nested-parens", 100000), Family: "deep-nesting"})
 		rep.Rule = "hostile inputs: every mnemonic of the grammar's Opcode rule (read from the tree) with 0-4 operands of every operand kind (registers of every class, immediates, strings, sized/unsized memory, defined/undefined labels and EQUs, seg:off, templates, malformed brackets) in both modes; numbers beyond 64 bits and 2^32 multiples in every numeric position; unknown and malformed directives, EQU cycles, text/template syntax; random byte strings (raw, printable, Shift_JIS/UTF-8 looking); token soup; token- and line-level mutations of valid programs; " +
-			"size families to 10^5 tokens. Monitors: worker liveness (panic value, fatal error, signal), parser virtual time (pigeon expression count at doubling sizes: a ratio >= 16 on two successive doublings is a violation), per-request CPU-time watchdog. non-trivial = input ran to an outcome (output, parse error or diagnosed exit); distinct = (family, outcome class) cells"
+			"size families to 10^5 tokens. Monitors: worker liveness (panic value, fatal error, signal), parser virtual time (pigeon expression count at doubling sizes: a ratio >= 16 on two successive doublings is a violation), CPU time of the whole pipeline at doubling sizes in one worker (a ratio >= 7 on two successive doublings with at least 2 s is a violation; absolute times are not judged), per-request CPU-time budget of 60 s + 1 ms per input byte, watchdog. non-trivial = input ran to an outcome (output, parse error or diagnosed exit); distinct = (family, outcome class) cells"
 		outs := RunCases(env, cases)
 		fam := map[string]any{}
 		for i, c := range cases {
@@ -452,6 +541,13 @@ func init() {
 			}
 		}
 		rep.Extra["parser_steps"] = fam
+		sc := map[string]any{}
+		for i, c := range cases {
+			if x, ok := c.(*ScaleCase); ok {
+				sc[x.Family] = outs[i].Note
+			}
+		}
+		rep.Extra["pipeline_cpu_seconds_at_doubling_sizes"] = sc
 		for i := 0; i < len(cases) && len(rep.Samples) < 6; i += len(cases)/6 + 1 {
 			if cc, ok := cases[i].(*CrashCase); ok {
 				rep.AddSample(map[string]any{"family": cc.Family, "input": clipStr(printable(cc.Src), 200), "verdict": outs[i].Status.String(), "outcome": outs[i].Cell})
